@@ -1,0 +1,18 @@
+//go:build verif
+
+package chrootarchive
+
+import "github.com/moby/go-archive/internal/unshare"
+
+// Exports for the verification harness (/verif). Compiled only with -tags verif; adds no behaviour.
+
+func VerifResolvePathInChroot(root, path string) (string, error) {
+	return resolvePathInChroot(root, path)
+}
+
+func VerifGoInChroot(path string, fn func()) error { return goInChroot(path, fn) }
+
+// VerifUnshareGo exposes internal/unshare.Go, which the harness cannot import.
+func VerifUnshareGo(flags int, setupfn func() error, fn func()) error {
+	return unshare.Go(flags, setupfn, fn)
+}
